@@ -7,6 +7,7 @@ from fractions import Fraction
 from symx import lib
 from symx.sarray import has_sym
 
+from .C13 import h_history as h_lattice_after_transformations  # noqa: F401  (the lattice maps after in-place / copying steps, incl. first/last centre)
 from .common import DIMSETS, region_inputs
 
 META = dict(
@@ -254,6 +255,14 @@ def tasks(tier):
             t.append(dict(harness="h_index2point", cfg=dict(ndim=nd, dims=dims)))
             t.append(dict(harness="h_point2index", cfg=dict(ndim=nd, dims=dims)))
     t.append(dict(harness="h_index2point", cfg=dict(ndim=1, dims="default", tuple1=True)))
+    # histories: the maps are read, the mesh is transformed (in place and copying), the maps must describe the new lattice
+    from . import C13
+
+    hist = [x for x in C13.tasks(tier) if x["harness"] == "h_history" and x["cfg"].get("obj") == "mesh" and x["cfg"].get("subregions") == "none"]
+    rot_inplace = [x for x in hist if any(st.get("kind") == "rotate" and st.get("inplace") for st in x["cfg"]["steps"])]
+    other = [x for x in hist if x not in rot_inplace]
+    for x in ((rot_inplace[::2] + other[::4]) if tier == "quick" else hist):
+        t.append(dict(harness="h_lattice_after_transformations", cfg=x["cfg"], limits=x.get("limits", {})))
     cellsets = [["1"], ["3/8"], ["1/1000000000"], ["1", "3/8"], ["7/3", "1/5"]]
     if tier != "quick":
         cellsets += [["5/1000000000", "3/1000000000", "1/1000000000"], ["1", "1", "1/3"], ["1000000", "1/7"]]
